@@ -29,6 +29,9 @@ CLAIMED = {
  "C11": dict(
    text="one-step lemmas over the real SSA of both in-repo CRC-64 implementations from an arbitrary 64-bit state (table step = bitwise Jones step; step injective in state and byte; chunking independence; Sum/Reset layout) plus the real payload checkers (utils.CheckVersionChecksum, cupcake verifyDump) on symbolic payloads whose trailer is built with the tool's own digest: accept intact, reject altered checksum byte, unsupported version, short input",
    note=NOTE_COMMON + "stream-length induction from the one-step lemmas is on paper; altered data bytes in a checked payload rest on step injectivity (three chained table steps time out in every back end); payload bodies <= 2 bytes"),
+ "C14": dict(
+   text="LoadCheckpoint/fetchCheckpoint/ClearCheckpoint and ParseKeyspace run from SSA against a model target whose databases hold checkpoint hashes in 7 layouts (own, own without run id, another source whose address extends ours, both, third source, foreign fields) with symbolic offsets, run ids and version fields and every map iteration order: returned (runid, offset, db) is the own entry with the greatest offset, others' fields untouched, stale own fields removed elsewhere, incompatible version refused, none => -1",
+   note=NOTE_COMMON + "utils.OpenRedisConn is replaced by the model target (tiny Redis), whose fidelity is trusted; <= 2 databases quick / 3 thorough; offsets <= 2 digits; counterexamples are replayed by engine-concrete re-execution because of the stub"),
  "C15": dict(
    text="bounded symbolic execution of utils.KeyToSlot from its SSA: for every key length up to the bound all byte values are covered by solver-decided paths; the slot is compared with the cluster-spec tag rule",
    note=NOTE_COMMON + "bounded key length; CRC16 applied by the tool's own function on both sides"),
